@@ -1,5 +1,679 @@
-use crate::util::{Args, Report};
-pub fn run(_a: &Args, _r: &mut Report) {
-    eprintln!("not implemented yet");
-    std::process::exit(2);
+//! C03 — field decoding inverts the standard's encoding for every encodable value.
+use crate::oracle::frames::{self, Bds40, Bds50, Bds60, Tss, VelCommon};
+use crate::oracle::gillham;
+use crate::util::{guarded, hexs, msg_class, short_loc, Args, Report, Rng};
+use rs1090::decode::Message;
+use serde_json::{json, Value};
+
+const AA: u32 = 0x3c6589;
+const ADDR: u32 = 0x4840d6;
+
+struct Ctx<'a> {
+    r: &'a mut Report,
+    k: u64,
+    shard: u64,
+    nshards: u64,
+}
+
+impl<'a> Ctx<'a> {
+    /// round-robin work split: true if this case belongs to this shard
+    fn mine(&mut self) -> bool {
+        self.k += 1;
+        self.k % self.nshards == self.shard
+    }
+}
+
+fn decode(c: &mut Ctx, f: &[u8], field: &str) -> Option<Value> {
+    c.r.evaluations += 1;
+    match guarded(|| Message::try_from(f).map(|m| serde_json::to_value(&m))) {
+        Err((loc, msg)) => {
+            c.r.violation(&format!("C03:panic:{field}:{}", short_loc(&loc)), format!("{field}: decoding {} panicked: {}", hexs(f), msg_class(&msg)), json!({"frame": hexs(f), "field": field}));
+            None
+        }
+        Ok(Err(e)) => {
+            c.r.violation(&format!("C03:{field}:rejected"), format!("{field}: frame {} built from the standard is rejected: {e}", hexs(f)), json!({"frame": hexs(f), "field": field}));
+            None
+        }
+        Ok(Ok(Err(_))) => {
+            c.r.class("accepted-but-unserialisable(judged by C07)");
+            None
+        }
+        Ok(Ok(Ok(v))) => Some(v),
+    }
+}
+
+fn expect_num(c: &mut Ctx, f: &[u8], field: &str, got: &Value, exp: f64, tol: f64, code: i64) {
+    let ok = match got.as_f64() {
+        Some(x) => (x - exp).abs() <= tol,
+        None => false,
+    };
+    if ok {
+        c.r.class(&format!("ok:{field}"));
+        c.r.distinct(crate::util::fnv(field.as_bytes()) ^ (code as u64).wrapping_mul(0x9E3779B97F4A7C15));
+        if let Some(x) = got.as_f64() {
+            c.r.max(&format!("abs_error:{field}"), (x - exp).abs());
+        }
+    } else {
+        let kind = if got.is_null() { "unavailable" } else { "value" };
+        let sig = if got.is_null() && exp == 0.0 { format!("C03:{field}:zero-decoded-as-unavailable") } else { format!("C03:{field}:{kind}") };
+        c.r.violation(&sig, format!("{field}: code {code} encodes {exp}, decoded {got} (frame {})", hexs(f)), json!({"frame": hexs(f), "field": field, "expected": exp, "code": code}));
+    }
+}
+
+fn expect_str(c: &mut Ctx, f: &[u8], field: &str, got: &Value, exp: &[String], code: i64) {
+    if got.as_str().map_or(false, |s| exp.iter().any(|e| e == s)) {
+        c.r.class(&format!("ok:{field}"));
+        c.r.distinct(crate::util::fnv(field.as_bytes()) ^ (code as u64).wrapping_mul(0x9E3779B97F4A7C15));
+    } else {
+        c.r.violation(&format!("C03:{field}:value"), format!("{field}: expected {:?}, decoded {got} (frame {})", exp, hexs(f)), json!({"frame": hexs(f), "field": field, "code": code}));
+    }
+}
+
+fn ia5_char(code: u8) -> char {
+    match code {
+        1..=26 => (b'A' + code - 1) as char,
+        32 => ' ',
+        48..=57 => (b'0' + code - 48) as char,
+        _ => '#',
+    }
+}
+
+/// strings the decoder may legitimately give for 8 codes: spaces stripped everywhere, or only trailing ones
+fn callsign_expect(codes: &[u8; 8]) -> Vec<String> {
+    let s: String = codes.iter().map(|c| ia5_char(*c)).collect();
+    vec![s.replace(' ', ""), s.trim_end().to_string(), s.clone()]
+}
+
+fn addresses(c: &mut Ctx, a: &Args, rng: &mut Rng) {
+    let me = frames::me_ident(4, 0, &[1, 2, 3, 32, 32, 32, 32, 32]);
+    let step: u32 = if a.thorough() { 1 } else { 257 };
+    let mut aa = 0u32;
+    while aa < (1 << 24) {
+        if c.mine() {
+            let x = if a.thorough() { aa } else { (aa + rng.below(257) as u32).min(0xffffff) };
+            for (name, f) in [("aa:DF17", frames::df17(5, x, &me)), ("aa:DF18", frames::df18(0, x, &me)), ("aa:DF11", frames::df11(5, x, 0))] {
+                if let Some(v) = decode(c, &f, name) {
+                    expect_str(c, &f, name, &v["icao24"], &[format!("{x:06x}")], x as i64);
+                }
+            }
+        }
+        aa += step;
+    }
+    for x in [0u32, 1, 0xffffff, 0x800000, 0x00000f, 0xf00000, 0x0a0b0c] {
+        let f = frames::df17(5, x, &me);
+        if let Some(v) = decode(c, &f, "aa:DF17") {
+            expect_str(c, &f, "aa:DF17", &v["icao24"], &[format!("{x:06x}")], x as i64);
+        }
+    }
+}
+
+fn callsigns(c: &mut Ctx, a: &Args, rng: &mut Rng) {
+    let base = [1u8, 2, 3, 4, 5, 6, 7, 8];
+    for pos in 0..8 {
+        for code in 0..64u8 {
+            if !c.mine() {
+                continue;
+            }
+            let mut codes = base;
+            codes[pos] = code;
+            let exp = callsign_expect(&codes);
+            let f = frames::df17(5, AA, &frames::me_ident(4, 3, &codes));
+            if let Some(v) = decode(c, &f, "callsign:BDS08") {
+                expect_str(c, &f, "callsign:BDS08", &v["callsign"], &exp, (pos * 64 + code as usize) as i64);
+            }
+            let mb = frames::mb_bds20(&codes);
+            for (name, f) in [("callsign:BDS20/DF20", frames::df20(0, 0, 0, frames::ac13_from_n(440), &mb, ADDR)), ("callsign:BDS20/DF21", frames::df21(0, 0, 0, 0x0aaa, &mb, ADDR))] {
+                if let Some(v) = decode(c, &f, name) {
+                    expect_str(c, &f, name, &v["bds20"]["callsign"], &exp, (pos * 64 + code as usize) as i64);
+                }
+            }
+        }
+    }
+    let n = a.budget(40_000, 4_000_000);
+    for i in 0..n {
+        let len = rng.range(1, 8) as usize;
+        let mut codes = [32u8; 8];
+        for x in codes.iter_mut().take(len) {
+            *x = if rng.chance(0.7) { rng.range(1, 26) as u8 } else { rng.range(48, 57) as u8 };
+        }
+        let exp = vec![codes.iter().take(len).map(|c| ia5_char(*c)).collect::<String>()];
+        let tc = rng.range(1, 4) as u8;
+        let f = frames::df17(5, AA, &frames::me_ident(tc, rng.below(8) as u8, &codes));
+        if let Some(v) = decode(c, &f, "callsign:BDS08") {
+            expect_str(c, &f, "callsign:BDS08(valid)", &v["callsign"], &exp, i as i64);
+        }
+    }
+}
+
+fn altitudes(c: &mut Ctx) {
+    let t = gillham::table();
+    for n in 0..2048u16 {
+        if !c.mine() {
+            continue;
+        }
+        let alt = 25 * n as i64 - 1000;
+        if alt <= 0 {
+            continue; // sentinel / not representable: outside this property (C13 covers them)
+        }
+        for tc in [9u8, 14, 18, 20, 22] {
+            let f = frames::df17(5, AA, &frames::me_airborne(tc, 0, 0, frames::ac12_from_n(n), 0, 0, 1000, 2000));
+            if let Some(v) = decode(c, &f, "altitude:BDS05") {
+                expect_num(c, &f, "altitude:BDS05", &v["altitude"], alt as f64, 0.0, n as i64);
+            }
+        }
+        let ac = frames::ac13_from_n(n);
+        for (name, f) in [("altitude:DF4", frames::df4(0, 0, 0, ac, ADDR)), ("altitude:DF0", frames::df0(0, 0, 0, 0, ac, ADDR)), ("altitude:DF16", frames::df16(0, 0, 0, ac, &[0; 7], ADDR)), ("altitude:DF20", frames::df20(0, 0, 0, ac, &[0; 7], ADDR))] {
+            if let Some(v) = decode(c, &f, name) {
+                expect_num(c, &f, name, &v["altitude"], alt as f64, 0.0, n as i64);
+            }
+        }
+    }
+    // Gillham-coded altitudes (100 ft) through both field widths
+    for (_, field, alt) in t.steps.iter() {
+        if !c.mine() || *alt <= 0 || *alt > 65535 {
+            continue;
+        }
+        let f = frames::df4(0, 0, 0, *field, ADDR);
+        if let Some(v) = decode(c, &f, "altitude:DF4(gillham)") {
+            expect_num(c, &f, "altitude:DF4(gillham)", &v["altitude"], *alt as f64, 0.0, *field as i64);
+        }
+        let f = frames::df17(5, AA, &frames::me_airborne(11, 0, 0, gillham::field13_to_12(*field), 0, 0, 1, 2));
+        if let Some(v) = decode(c, &f, "altitude:BDS05(gillham)") {
+            expect_num(c, &f, "altitude:BDS05(gillham)", &v["altitude"], *alt as f64, 0.0, *field as i64);
+        }
+    }
+}
+
+fn squawks(c: &mut Ctx) {
+    for s in 0..4096u16 {
+        if !c.mine() {
+            continue;
+        }
+        let (a, b, cc, d) = (((s >> 9) & 7) as u8, ((s >> 6) & 7) as u8, ((s >> 3) & 7) as u8, (s & 7) as u8);
+        let id = frames::id13_from_squawk(a, b, cc, d);
+        let exp = vec![format!("{a}{b}{cc}{d}")];
+        for (name, f) in [("squawk:DF5", frames::df5(0, 0, 0, id, ADDR)), ("squawk:DF21", frames::df21(0, 0, 0, id, &[0; 7], ADDR)), ("squawk:BDS61", frames::df17(5, AA, &frames::me_status(1, 0, id, 0)))] {
+            if let Some(v) = decode(c, &f, name) {
+                expect_str(c, &f, name, &v["squawk"], &exp, s as i64);
+            }
+        }
+    }
+}
+
+fn velocity(c: &mut Ctx, a: &Args, rng: &mut Rng) {
+    let common = VelCommon { subtype: 1, nac: 2, vr: 1, diff: 1, ..Default::default() };
+    let mut pair = |c: &mut Ctx, se: u8, ew: u16, sn: u8, ns: u16| {
+        let f = frames::df17(5, AA, &frames::me_velocity_gs(common, se, ew, sn, ns));
+        if let Some(v) = decode(c, &f, "velocity:st1") {
+            let vx = (ew as f64 - 1.0) * if se == 1 { -1.0 } else { 1.0 };
+            let vy = (ns as f64 - 1.0) * if sn == 1 { -1.0 } else { 1.0 };
+            let gs = (vx * vx + vy * vy).sqrt();
+            let mut trk = vx.atan2(vy).to_degrees();
+            if trk < 0.0 {
+                trk += 360.0;
+            }
+            let code = ((se as i64) << 21) | ((ew as i64) << 11) | ((sn as i64) << 10) | ns as i64;
+            expect_num(c, &f, "groundspeed:BDS09", &v["groundspeed"], gs, 1e-6, code);
+            if gs > 0.0 {
+                expect_num(c, &f, "track:BDS09", &v["track"], trk, 1e-6, code);
+            }
+        }
+    };
+    // axes and corners, always
+    for val in 1..=1023u16 {
+        if !c.mine() {
+            continue;
+        }
+        for (se, sn) in [(0u8, 0u8), (1, 0), (0, 1), (1, 1)] {
+            pair(c, se, val, sn, 1);
+            pair(c, se, 1, sn, val);
+            pair(c, se, val, sn, val);
+            pair(c, se, val, sn, 1024 - val);
+        }
+    }
+    if a.thorough() {
+        for ew in 1..=1023u16 {
+            if !c.mine() {
+                continue;
+            }
+            for ns in 1..=1023u16 {
+                for (se, sn) in [(0u8, 0u8), (1, 0), (0, 1), (1, 1)] {
+                    pair(c, se, ew, sn, ns);
+                }
+            }
+        }
+    } else {
+        let n = a.budget(200_000, 0);
+        for _ in 0..n {
+            pair(c, rng.below(2) as u8, rng.range(1, 1023) as u16, rng.below(2) as u8, rng.range(1, 1023) as u16);
+        }
+    }
+    // subtypes 3 and 4: heading x airspeed, each axis completely
+    for st in [3u8, 4] {
+        let cm = VelCommon { subtype: st, vr: 1, diff: 1, ..Default::default() };
+        let mult = if st == 4 { 4.0 } else { 1.0 };
+        for t in [0u8, 1] {
+            let key = if t == 0 { "IAS" } else { "TAS" };
+            for h in 0..1024u16 {
+                if !c.mine() {
+                    continue;
+                }
+                let f = frames::df17(5, AA, &frames::me_velocity_as(cm, 1, h, t, 1 + (h % 1023)));
+                if let Some(v) = decode(c, &f, "airspeed:heading") {
+                    expect_num(c, &f, &format!("heading:BDS09:st{st}"), &v["heading"], h as f64 * 360.0 / 1024.0, 1e-4, h as i64);
+                    expect_num(c, &f, &format!("{key}:BDS09:st{st}"), &v[key], mult * (h % 1023) as f64, 0.0, h as i64);
+                }
+            }
+            for s in 1..=1023u16 {
+                if !c.mine() {
+                    continue;
+                }
+                let f = frames::df17(5, AA, &frames::me_velocity_as(cm, 1, (s * 7) % 1024, t, s));
+                if let Some(v) = decode(c, &f, "airspeed:speed") {
+                    expect_num(c, &f, &format!("{key}:BDS09:st{st}"), &v[key], mult * (s as f64 - 1.0), 0.0, s as i64);
+                }
+            }
+        }
+    }
+    // vertical rate, all 2 x 511 codes; GNSS/baro difference, all 2 x 126 codes
+    for sign in [0u8, 1] {
+        for vr in 1..=511u16 {
+            if !c.mine() {
+                continue;
+            }
+            for src in [0u8, 1] {
+                let cm = VelCommon { subtype: 1, vr_src: src, vr_sign: sign, vr, diff: 1, ..Default::default() };
+                let f = frames::df17(5, AA, &frames::me_velocity_gs(cm, 0, 101, 0, 201));
+                if let Some(v) = decode(c, &f, "vertical_rate") {
+                    let exp = (vr as f64 - 1.0) * 64.0 * if sign == 1 { -1.0 } else { 1.0 };
+                    expect_num(c, &f, "vertical_rate:BDS09", &v["vertical_rate"], exp, 0.0, ((sign as i64) << 9) | vr as i64);
+                    expect_str(c, &f, "vrate_src:BDS09", &v["vrate_src"], &[if src == 0 { "barometric".to_string() } else { "GNSS".to_string() }], src as i64);
+                }
+            }
+        }
+        for d in 1..=126u8 {
+            if !c.mine() {
+                continue;
+            }
+            let cm = VelCommon { subtype: 1, vr: 5, diff_sign: sign, diff: d, ..Default::default() };
+            let f = frames::df17(5, AA, &frames::me_velocity_gs(cm, 0, 101, 0, 201));
+            if let Some(v) = decode(c, &f, "geo_minus_baro") {
+                let exp = (d as f64 - 1.0) * 25.0 * if sign == 1 { -1.0 } else { 1.0 };
+                expect_num(c, &f, "geo_minus_baro:BDS09", &v["geo_minus_baro"], exp, 0.0, ((sign as i64) << 7) | d as i64);
+            }
+        }
+    }
+}
+
+/// DO-260B 2.2.3.2.4.2 movement coding: lower bound of each code's interval
+fn movement_kt(code: u8) -> f64 {
+    match code {
+        1 => 0.0,
+        2..=8 => 0.125 * (code - 1) as f64,
+        9..=12 => 1.0 + 0.25 * (code - 9) as f64,
+        13..=38 => 2.0 + 0.5 * (code - 13) as f64,
+        39..=93 => 15.0 + (code - 39) as f64,
+        94..=108 => 70.0 + 2.0 * (code - 94) as f64,
+        109..=123 => 100.0 + 5.0 * (code - 109) as f64,
+        _ => 175.0,
+    }
+}
+fn movement_step(code: u8) -> f64 {
+    match code {
+        1 => 0.125,
+        2..=8 => 0.125,
+        9..=12 => 0.25,
+        13..=38 => 0.5,
+        39..=93 => 1.0,
+        94..=108 => 2.0,
+        109..=123 => 5.0,
+        _ => 5.0,
+    }
+}
+
+fn surface(c: &mut Ctx) {
+    for mov in 1..=124u8 {
+        for trk in 0..128u8 {
+            if !c.mine() {
+                continue;
+            }
+            let tc = 5 + (trk % 4);
+            let f = frames::df17(5, AA, &frames::me_surface(tc, mov, 1, trk, 0, (trk & 1) as u8, 4321, 1234));
+            if let Some(v) = decode(c, &f, "surface") {
+                // the decoder may report any value inside the code's interval [lower, lower + step]
+                let lo = movement_kt(mov);
+                let st = movement_step(mov);
+                let got = v["groundspeed"].as_f64();
+                if got.map_or(false, |g| g >= lo - 1e-9 && g <= lo + st + 1e-9) {
+                    c.r.class("ok:movement:BDS06");
+                    c.r.distinct(0x6000_0000 | ((mov as u64) << 8) | trk as u64);
+                } else {
+                    c.r.violation("C03:movement:BDS06:value", format!("movement code {mov} encodes [{lo}, {}] kt, decoded {} (frame {})", lo + st, v["groundspeed"], hexs(&f)), json!({"frame": hexs(&f), "field": "movement", "code": mov}));
+                }
+                expect_num(c, &f, "track:BDS06", &v["track"], trk as f64 * 360.0 / 128.0, 1e-9, trk as i64);
+            }
+        }
+    }
+}
+
+fn tss(c: &mut Ctx) {
+    // selected altitude on the 100-ft grid (N = round(alt/32) + 1), incl. 0 ft
+    for k in 0..=654u32 {
+        if !c.mine() {
+            continue;
+        }
+        let alt = 100 * k;
+        let n = ((alt as f64 / 32.0).round() as u16) + 1;
+        for src in [0u8, 1] {
+            let t = Tss { subtype: 1, alt_type: src, alt: n, qnh: 1 + (k % 511) as u16, hdg_status: 1, hdg: (k % 512) as u16, nacp: (k % 16) as u8, tcas: 1, ..Default::default() };
+            let f = frames::df17(5, AA, &frames::me_tss(t));
+            if let Some(v) = decode(c, &f, "tss") {
+                expect_num(c, &f, "selected_altitude:BDS62", &v["selected_altitude"], alt as f64, 0.0, n as i64);
+                expect_num(c, &f, "barometric_setting:BDS62", &v["barometric_setting"], 800.0 + 0.8 * (k % 511) as f64, 0.05, (k % 511) as i64);
+                expect_num(c, &f, "selected_heading:BDS62", &v["selected_heading"], (k % 512) as f64 * 180.0 / 256.0, 1e-4, (k % 512) as i64);
+                expect_num(c, &f, "NACp:BDS62", &v["NACp"], (k % 16) as f64, 0.0, (k % 16) as i64);
+                expect_str(c, &f, "source:BDS62", &v["source"], &[if src == 0 { "MCP/FCU".to_string() } else { "FMS".to_string() }], src as i64);
+            }
+        }
+    }
+    for q in 1..=511u16 {
+        if !c.mine() {
+            continue;
+        }
+        let t = Tss { subtype: 1, alt: 1001, qnh: q, ..Default::default() };
+        let f = frames::df17(5, AA, &frames::me_tss(t));
+        if let Some(v) = decode(c, &f, "tss") {
+            expect_num(c, &f, "barometric_setting:BDS62", &v["barometric_setting"], 800.0 + 0.8 * (q as f64 - 1.0), 0.05, q as i64);
+        }
+    }
+    for h in 0..512u16 {
+        if !c.mine() {
+            continue;
+        }
+        let t = Tss { subtype: 1, alt: 1001, hdg_status: 1, hdg: h, ..Default::default() };
+        let f = frames::df17(5, AA, &frames::me_tss(t));
+        if let Some(v) = decode(c, &f, "tss") {
+            expect_num(c, &f, "selected_heading:BDS62", &v["selected_heading"], h as f64 * 180.0 / 256.0, 1e-4, h as i64);
+        }
+    }
+}
+
+fn commb_frames(mb: &[u8; 7], k: u32) -> [(&'static str, Vec<u8>); 2] {
+    [("DF20", frames::df20(0, 0, 0, frames::ac13_from_n(440 + (k % 800) as u16), mb, ADDR)), ("DF21", frames::df21(0, 0, 0, 0x0aaa, mb, ADDR))]
+}
+
+fn bds40(c: &mut Ctx) {
+    for k in 0..=450u32 {
+        if !c.mine() {
+            continue;
+        }
+        let alt = 100 * k;
+        let code = (alt as f64 / 16.0).round() as u16;
+        let other = ((100 * ((k * 7) % 451)) as f64 / 16.0).round() as u16;
+        let mb = frames::mb_bds40(Bds40 { mcp: Some(code), fms: Some(other), qnh: Some(2132), ..Default::default() });
+        for (df, f) in commb_frames(&mb, k) {
+            if let Some(v) = decode(c, &f, "bds40") {
+                let reg = &v["bds40"];
+                if reg.is_null() {
+                    c.r.violation("C03:bds40:not-labelled", format!("{df} with a plausible BDS 4,0 payload (MCP {alt} ft) is not labelled bds40: {}", hexs(&f)), json!({"frame": hexs(&f), "field": "bds40"}));
+                    continue;
+                }
+                expect_num(c, &f, "selected_mcp:BDS40", &reg["selected_mcp"], alt as f64, 0.0, code as i64);
+                expect_num(c, &f, "selected_fms:BDS40", &reg["selected_fms"], (100 * ((k * 7) % 451)) as f64, 0.0, other as i64);
+            }
+        }
+        let mb = frames::mb_bds40(Bds40 { mcp: None, fms: Some(code), qnh: None, ..Default::default() });
+        for (_, f) in commb_frames(&mb, k) {
+            if let Some(v) = decode(c, &f, "bds40") {
+                if !v["bds40"].is_null() {
+                    expect_num(c, &f, "selected_fms:BDS40", &v["bds40"]["selected_fms"], alt as f64, 0.0, code as i64);
+                } else if code != 0 {
+                    c.r.violation("C03:bds40:not-labelled", format!("BDS 4,0 payload with FMS {alt} ft only is not labelled: {}", hexs(&f)), json!({"frame": hexs(&f), "field": "bds40"}));
+                }
+            }
+        }
+    }
+    for q in 0..4096u16 {
+        if !c.mine() {
+            continue;
+        }
+        let mb = frames::mb_bds40(Bds40 { mcp: Some(2250), fms: None, qnh: Some(q), ..Default::default() });
+        for (_, f) in commb_frames(&mb, q as u32) {
+            if let Some(v) = decode(c, &f, "bds40") {
+                if v["bds40"].is_null() {
+                    c.r.violation("C03:bds40:not-labelled", format!("BDS 4,0 payload with QNH code {q} is not labelled: {}", hexs(&f)), json!({"frame": hexs(&f), "field": "bds40"}));
+                } else {
+                    expect_num(c, &f, "barometric_setting:BDS40", &v["bds40"]["barometric_setting"], 800.0 + 0.1 * q as f64, 1e-6, q as i64);
+                }
+            }
+        }
+    }
+}
+
+fn sgn(sign: u8, v: u16, bits: u32) -> f64 {
+    if sign == 1 {
+        v as f64 - (1u32 << bits) as f64
+    } else {
+        v as f64
+    }
+}
+
+fn bds50(c: &mut Ctx) {
+    // plausible companions: roll 5 deg right, track 90, gs 400, rate +1, tas 420
+    let base = Bds50 { roll: Some((0, 28)), track: Some((0, 512)), gs: Some(200), rate: Some((0, 32)), tas: Some(210) };
+    let mut run = |c: &mut Ctx, x: Bds50, field: &str, key: &str, exp: f64, tol: f64, code: i64| {
+        let mb = frames::mb_bds50(x);
+        for (df, f) in commb_frames(&mb, code as u32) {
+            if let Some(v) = decode(c, &f, "bds50") {
+                let reg = &v["bds50"];
+                if reg.is_null() {
+                    c.r.violation(&format!("C03:bds50:not-labelled:{field}"), format!("{df} with a plausible BDS 5,0 payload ({field} code {code}) is not labelled bds50: {}", hexs(&f)), json!({"frame": hexs(&f), "field": "bds50"}));
+                } else {
+                    expect_num(c, &f, &format!("{field}:BDS50"), &reg[key], exp, tol, code);
+                }
+            }
+        }
+    };
+    for sign in [0u8, 1] {
+        // roll: |roll| <= 50 deg -> codes 0..284 (positive) and 512-284..511 (negative); the turn rate must agree in sign
+        for v in 0..512u16 {
+            if !c.mine() {
+                continue;
+            }
+            let roll = sgn(sign, v, 9) * 45.0 / 256.0;
+            if roll.abs() > 50.0 {
+                continue;
+            }
+            let rate = if roll < 0.0 { Some((1u8, 512 - 32)) } else if roll > 0.0 { Some((0, 32)) } else { Some((0, 0)) };
+            run(c, Bds50 { roll: Some((sign, v)), rate, ..base }, "roll", "roll", roll, 1e-9, ((sign as i64) << 9) | v as i64);
+        }
+        for v in 0..1024u16 {
+            if !c.mine() {
+                continue;
+            }
+            let mut t = sgn(sign, v, 10) * 90.0 / 512.0;
+            if t < 0.0 {
+                t += 360.0;
+            }
+            run(c, Bds50 { track: Some((sign, v)), ..base }, "track", "track", t, 1e-9, ((sign as i64) << 10) | v as i64);
+        }
+        for v in 0..511u16 {
+            if !c.mine() {
+                continue;
+            }
+            let rate = sgn(sign, v, 9) * 8.0 / 256.0;
+            let roll = if rate < 0.0 { Some((1u8, 512 - 28)) } else { Some((0, 28)) };
+            if v == 0 && sign == 1 {
+                continue;
+            }
+            run(c, Bds50 { rate: Some((sign, v)), roll, ..base }, "track_rate", "track_rate", rate, 1e-9, ((sign as i64) << 9) | v as i64);
+        }
+    }
+    for v in 0..=300u16 {
+        if !c.mine() {
+            continue;
+        }
+        // tas chosen within 200 kt of gs and inside [80, 500]
+        let gs = 2 * v as i32;
+        let tas = gs.clamp(80, 500);
+        if (gs - tas).abs() > 200 {
+            continue;
+        }
+        run(c, Bds50 { gs: Some(v), tas: Some((tas / 2) as u16), ..base }, "groundspeed", "groundspeed", gs as f64, 0.0, v as i64);
+    }
+    for v in 40..=250u16 {
+        if !c.mine() {
+            continue;
+        }
+        let tas = 2 * v as i32;
+        let gs = tas.clamp(0, 600);
+        run(c, Bds50 { tas: Some(v), gs: Some((gs / 2) as u16), ..base }, "TAS", "TAS", tas as f64, 0.0, v as i64);
+    }
+}
+
+fn bds60(c: &mut Ctx) {
+    // companions: heading 90, IAS 280, Mach 0.78, vrates +640
+    let base = Bds60 { hdg: Some((0, 512)), ias: Some(280), mach: Some(195), vr_baro: Some((0, 20)), vr_ins: Some((0, 20)) };
+    let mut run = |c: &mut Ctx, x: Bds60, field: &str, key: &str, exp: f64, tol: f64, code: i64| {
+        let mb = frames::mb_bds60(x);
+        for (df, f) in commb_frames(&mb, code as u32) {
+            if let Some(v) = decode(c, &f, "bds60") {
+                let reg = &v["bds60"];
+                if reg.is_null() {
+                    c.r.violation(&format!("C03:bds60:not-labelled:{field}"), format!("{df} with a plausible BDS 6,0 payload ({field} code {code}) is not labelled bds60: {}", hexs(&f)), json!({"frame": hexs(&f), "field": "bds60"}));
+                } else {
+                    expect_num(c, &f, &format!("{field}:BDS60"), &reg[key], exp, tol, code);
+                }
+            }
+        }
+    };
+    for sign in [0u8, 1] {
+        for v in 0..1024u16 {
+            if !c.mine() {
+                continue;
+            }
+            let mut h = sgn(sign, v, 10) * 90.0 / 512.0;
+            if h < 0.0 {
+                h += 360.0;
+            }
+            run(c, Bds60 { hdg: Some((sign, v)), ..base }, "heading", "heading", h, 1e-9, ((sign as i64) << 10) | v as i64);
+        }
+        for v in 1..511u16 {
+            if !c.mine() {
+                continue;
+            }
+            let r = sgn(sign, v, 9) * 32.0;
+            if r.abs() > 6000.0 {
+                continue;
+            }
+            run(c, Bds60 { vr_baro: Some((sign, v)), ..base }, "vrate_barometric", "vrate_barometric", r, 32.0, ((sign as i64) << 9) | v as i64);
+            run(c, Bds60 { vr_ins: Some((sign, v)), ..base }, "vrate_inertial", "vrate_inertial", r, 32.0, ((sign as i64) << 9) | v as i64);
+        }
+    }
+    for v in 1..=500u16 {
+        if !c.mine() {
+            continue;
+        }
+        // Mach companion consistent with the decoder's documented envelope: >= 0.4 above 250 kt, <= 0.5 below 150 kt
+        let mach = if v > 250 { 195 } else if v < 150 { 100 } else { 112 };
+        run(c, Bds60 { ias: Some(v), mach: Some(mach), ..base }, "IAS", "IAS", v as f64, 0.0, v as i64);
+    }
+    for v in 1..=250u16 {
+        if !c.mine() {
+            continue;
+        }
+        let m = v as f64 * 2.048 / 512.0;
+        let ias = if m < 0.4 { 200 } else if m > 0.5 { 280 } else { 220 };
+        run(c, Bds60 { mach: Some(v), ias: Some(ias), ..base }, "Mach", "Mach", m, 1e-9, v as i64);
+    }
+}
+
+fn oracle_alt13(code: u16, t: &gillham::Table) -> Option<i64> {
+    if code & 0x40 != 0 {
+        return None;
+    }
+    if code & 0x10 != 0 {
+        let n = ((code & 0x1f80) >> 2) | ((code & 0x20) >> 1) | (code & 0xf);
+        let a = 25 * n as i64 - 1000;
+        if a >= 0 {
+            Some(a)
+        } else {
+            None
+        }
+    } else {
+        t.by_field.get(&code).map(|a| *a as i64).filter(|a| *a >= 0 && *a <= 65535)
+    }
+}
+
+fn bds05_in_df20(c: &mut Ctx, a: &Args, rng: &mut Rng) {
+    let t = gillham::table();
+    let n = a.budget(300_000, 30_000_000);
+    for i in 0..n {
+        let hdr = if i % 3 == 0 { frames::ac13_from_n(rng.range(41, 2047) as u16) } else { (rng.next() & 0x1fbf) as u16 };
+        let me_code13 = match i % 4 {
+            0 => hdr,                                   // same code -> label expected for legal codes
+            1 => hdr ^ (1 << rng.below(13)) & !0x40,    // one bit off
+            _ => (rng.next() & 0x1fbf) as u16,
+        };
+        let tc = *rng.pick(&[9u8, 11, 13, 18, 20, 22]);
+        let me = frames::me_airborne(tc, 0, 0, gillham::field13_to_12(me_code13), 0, (i & 1) as u8, rng.biased(17) as u32, rng.biased(17) as u32);
+        let f = frames::df20(0, 0, 0, hdr, &me, ADDR);
+        if let Some(v) = decode(c, &f, "bds05-in-df20") {
+            let labelled = !v["bds05"].is_null();
+            let ha = oracle_alt13(hdr, &t);
+            let ma = oracle_alt13(me_code13 & !0x40, &t);
+            if labelled {
+                if ha.unwrap_or(0) == 0 && ma.unwrap_or(0) == 0 {
+                    // 0 is both "0 ft" and "unavailable" in the 13-bit altitude API: indistinguishable, not judged
+                    c.r.class("not-judged:bds05-label(0 ft vs unavailable header)");
+                } else if ha.is_some() && ha == ma {
+                    c.r.class("ok:bds05-label(altitudes equal)");
+                    c.r.distinct(((hdr as u64) << 20) ^ me_code13 as u64 ^ 0xb05);
+                } else {
+                    c.r.violation("C03:bds05-label:altitude-mismatch", format!("DF20 {} is labelled bds05 although the payload altitude ({:?} ft) differs from the header altitude ({:?} ft)", hexs(&f), ma, ha), json!({"frame": hexs(&f), "field": "bds05-in-df20"}));
+                }
+            } else {
+                c.r.class("ok:bds05-not-labelled");
+            }
+        }
+    }
+}
+
+pub fn run(a: &Args, r: &mut Report) {
+    r.rule = "per field: every code of the field (or the stated stratified sample in quick) is encoded by the independent standards-based encoder, with plausible companions for Comm-B registers, decoded by the real Message::try_from and read back from serde_json::to_value; compared with the physical value within one quantisation step (exactly, for integer-valued fields). distinct_nontrivial = distinct (field, code) pairs that round-tripped".into();
+    r.assumptions.push("sentinel codes (0 = no information, 127 in the GNSS/baro difference, movement 0 / 125..127) are not judged".into());
+    r.assumptions.push("Comm-B registers are judged inside the decoder's documented plausibility envelope only (roll <= 50 deg, GS <= 600 kt, TAS in [80,500], |GS-TAS| <= 200, IAS 1..500, Mach <= 1, |vrate| <= 6000 ft/min, consistent roll/turn-rate signs, IAS/Mach consistency)".into());
+    r.assumptions.push("call signs: the decoder strips spaces; undefined 6-bit codes must give '#'".into());
+    if let Some(p) = &a.replay {
+        let v: Value = serde_json::from_str(&std::fs::read_to_string(p).unwrap()).unwrap();
+        let f = hex::decode(v["replay"]["frame"].as_str().unwrap()).unwrap();
+        let mut c = Ctx { r, k: 0, shard: 0, nshards: 1 };
+        if let Some(js) = decode(&mut c, &f, "replay") {
+            c.r.extra.insert("replay_json".into(), js.clone());
+            if let Some(exp) = v["replay"].get("expected").and_then(|e| e.as_f64()) {
+                let field = v["replay"]["field"].as_str().unwrap_or("");
+                let key = field.split(':').next().unwrap_or("");
+                let got = if js[key].is_null() { js.as_object().and_then(|o| o.values().find_map(|x| x.get(key))).cloned().unwrap_or(Value::Null) } else { js[key].clone() };
+                expect_num(&mut c, &f, field, &got, exp, 1e-6, 0);
+            }
+        }
+        return;
+    }
+    let mut rng = Rng::new(a.seed, a.shard, "C03");
+    let mut c = Ctx { r, k: 0, shard: a.shard, nshards: a.nshards };
+    addresses(&mut c, a, &mut rng);
+    callsigns(&mut c, a, &mut rng);
+    altitudes(&mut c);
+    squawks(&mut c);
+    velocity(&mut c, a, &mut rng);
+    surface(&mut c);
+    tss(&mut c);
+    bds40(&mut c);
+    bds50(&mut c);
+    bds60(&mut c);
+    bds05_in_df20(&mut c, a, &mut rng);
+    c.r.sample(json!({"field": "groundspeed/track (BDS 0,9 subtype 1)", "frame": hexs(&frames::df17(5, AA, &frames::me_velocity_gs(VelCommon { subtype: 1, vr: 1, diff: 1, ..Default::default() }, 1, 10, 0, 160))), "encoded": {"ew": -9, "ns": 159}}));
+    c.r.sample(json!({"field": "selected_mcp (BDS 4,0 in DF20)", "frame": hexs(&frames::df20(0, 0, 0, frames::ac13_from_n(1440), &frames::mb_bds40(Bds40 { mcp: Some(2250), ..Default::default() }), ADDR)), "encoded_ft": 36000}));
+    let mand = ["ok:aa:DF17", "ok:aa:DF18", "ok:aa:DF11", "ok:callsign:BDS08", "ok:callsign:BDS20/DF20", "ok:callsign:BDS20/DF21", "ok:altitude:BDS05", "ok:altitude:DF4", "ok:altitude:DF20", "ok:squawk:DF5", "ok:squawk:DF21", "ok:squawk:BDS61", "ok:groundspeed:BDS09", "ok:track:BDS09", "ok:heading:BDS09:st3", "ok:IAS:BDS09:st3", "ok:TAS:BDS09:st3", "ok:vertical_rate:BDS09", "ok:geo_minus_baro:BDS09", "ok:movement:BDS06", "ok:track:BDS06", "ok:selected_altitude:BDS62", "ok:barometric_setting:BDS62", "ok:selected_heading:BDS62", "ok:selected_mcp:BDS40", "ok:barometric_setting:BDS40", "ok:roll:BDS50", "ok:track:BDS50", "ok:groundspeed:BDS50", "ok:TAS:BDS50", "ok:track_rate:BDS50", "ok:heading:BDS60", "ok:IAS:BDS60", "ok:Mach:BDS60", "ok:vrate_barometric:BDS60", "ok:vrate_inertial:BDS60", "ok:bds05-label(altitudes equal)", "ok:bds05-not-labelled"];
+    c.r.extra.insert("mandatory".into(), json!(mand.to_vec()));
 }
